@@ -374,6 +374,34 @@ def name_table(ctx, d5):
                 d5.ok(f.qualname, 'allowed writer of the name table: %s' % src(st), f, st)
             else:
                 d5.fail(f.qualname, 'name-table-writer', 'the name table is written outside compile / set_alias / define_group', f, st)
+    # a writer that may CHANGE the meaning of an existing name (no "name is new" guard) must forget what was memoised under it:
+    # the chemicals' own lookup memo and the per-(phases, chemicals) memos of the multi-phase indexers
+    from ..cfg import CFG
+    dg = prog.method('CompiledChemicals', 'define_group', rel=CH)
+    cfg = CFG(dg.node)
+    st = [n for n in walk_no_nested(dg.node) if isinstance(n, ast.Assign) and any(isinstance(t, ast.Subscript) and src(t.value) == 'self._index' for t in n.targets)]
+    if not st:
+        raise AnalysisError('define_group: store into the name table not found')
+    node = cfg.node_of(st[0])
+
+    def clears_own(nd):
+        return nd.kind == 'stmt' and any(isinstance(x, ast.Call) and src(x.func) == 'self._index_cache.clear' for x in ast.walk(nd.ast)) \
+            or nd.kind == 'stmt' and isinstance(nd.ast, ast.Assign) and any(src(t) == 'self._index_cache' for t in nd.ast.targets)
+
+    def clears_registry(nd):
+        if nd.kind not in ('for', 'stmt'):
+            return False
+        a = nd.ast
+        return isinstance(a, ast.For) and '_index_caches' in src(a.iter) and any(isinstance(x, ast.Call) and isinstance(x.func, ast.Attribute) and x.func.attr == 'clear' for x in ast.walk(a)) \
+            or (nd.kind == 'stmt' and any(isinstance(x, ast.Call) and '_index_caches' in src(x.func) and src(x.func).endswith('.clear') for x in ast.walk(a)))
+    for what, pred, tag in (('the lookup memo of the chemicals object', clears_own, 'memo-not-invalidated'),
+                            ('the per-(phases, chemicals) lookup memos of the multi-phase indexers', clears_registry, 'indexer-memos-not-invalidated')):
+        okk, wit = cfg.must_pass(node, lambda nd, pred=pred: nd is not node and pred(nd))
+        if okk:
+            d5.ok('CompiledChemicals.define_group', 'after (re)defining a name, %s is cleared on every path' % what, dg, st[0])
+        else:
+            d5.fail('CompiledChemicals.define_group', tag, 'define_group can give an existing name a new meaning but does not clear %s: a lookup made before the '
+                    'redefinition keeps returning the old positions' % what, dg, st[0])
     sa = prog.method('CompiledChemicals', 'set_alias', rel=CH)
     guard = [n for n in walk_no_nested(sa.node) if isinstance(n, ast.If) and 'alias in dct' in src(n.test) and 'is not chemical' in src(n.test)
              and isinstance(n.body[0], ast.Raise)]
